@@ -102,6 +102,8 @@ def Chan.new (owner : Nat) : Chan :=
     needRead := true, taskReg := false, ioReg := false, readerAlive := true }
 
 inductive Out where
+  /-- a decoded request is handed to the expect service or the service (`handle_request` / pop) -/
+  | begin (r : Nat)
   | call (r : Nat)
   | expectCall (r : Nat)
   | continue100
@@ -189,8 +191,8 @@ structure Flags where
 
 inductive St where
   | none
-  | expect (r : Nat)
-  | service (r : Nat)
+  | expect (r : ReqFacts)
+  | service (r : ReqFacts)
   | sendPayload (r : Nat)
   | sendErrPayload (r : Option Nat)
   deriving DecidableEq, Repr, Inhabited
@@ -320,39 +322,51 @@ def bodyPrefix : List RUnit → Nat × List RUnit
   | .body n :: rest => let (m, r) := bodyPrefix rest; (n + m, r)
   | us => (0, us)
 
+/-- `PayloadDecoder` `Kind::Length` (decoder.rs): all buffered body bytes up to `rem` as one chunk -/
+def decodeLength (rem : Nat) (buf : List RUnit) : Decoded × List RUnit × Option PDec :=
+  if rem == 0 then (.eof, buf, none)
+  else
+    let (n, rest) := bodyPrefix buf
+    if n == 0 then
+      match buf with
+      | [] => (.needMore, buf, some (.length rem))
+      -- non-body bytes while a body is expected: they are taken as body bytes by the real
+      -- decoder; outside the correspondence's input class, treated as one opaque chunk
+      | _ :: rest' => (.chunk (min rem 1), rest', some (.length (rem - min rem 1)))
+    else (.chunk (min rem n), rest, some (.length (rem - min rem n)))
+
+/-- `Kind::Chunked` on whole-chunk units -/
+def decodeChunked (buf : List RUnit) : Decoded × List RUnit × Option PDec :=
+  match buf with
+  | .chunk n :: rest => (.chunk n, rest, some .chunked)
+  | .last :: rest => (.eof, rest, none)
+  | [] => (.needMore, buf, some .chunked)
+  | _ :: _ => (.errParse, buf, some .chunked)
+
+/-- `Kind::Eof` (upgrade / CONNECT) -/
+def decodeStream (buf : List RUnit) : Decoded × List RUnit × Option PDec :=
+  match buf with
+  | [] => (.needMore, buf, some .stream)
+  | .body n :: rest => (.chunk n, rest, some .stream)
+  | _ :: rest => (.chunk 1, rest, some .stream)
+
+/-- `MessageDecoder<Request>::decode` on head units -/
+def decodeHead (buf : List RUnit) : Decoded × List RUnit × Option PDec :=
+  match buf with
+  | [] => (.needMore, buf, none)
+  | .head r :: rest => (.item r, rest, none)
+  | .headA r :: .headB r' :: rest => if r == r' then (.item r, rest, none) else (.errParse, buf, none)
+  | [.headA _] => (.needMore, buf, none)
+  | [.badA] => (.needMore, buf, none)
+  | _ => (.errParse, buf, none)
+
 /-- one `codec.decode(read_buf)` call: result, remaining buffer, new payload decoder -/
 def decodeUnits (pdec : Option PDec) (buf : List RUnit) : Decoded × List RUnit × Option PDec :=
   match pdec with
-  | some (.length rem) =>
-    if rem == 0 then (.eof, buf, none)
-    else
-      let (n, rest) := bodyPrefix buf
-      if n == 0 then
-        match buf with
-        | [] => (.needMore, buf, pdec)
-        -- non-body bytes while a body is expected: they are taken as body bytes by the real
-        -- decoder; outside the correspondence's input class, treated as one opaque chunk
-        | _ :: rest' => (.chunk (min rem 1), rest', some (.length (rem - min rem 1)))
-      else (.chunk (min rem n), rest, some (.length (rem - min rem n)))
-  | some .chunked =>
-    match buf with
-    | .chunk n :: rest => (.chunk n, rest, pdec)
-    | .last :: rest => (.eof, rest, none)
-    | [] => (.needMore, buf, pdec)
-    | _ :: _ => (.errParse, buf, pdec)
-  | some .stream =>
-    match buf with
-    | [] => (.needMore, buf, pdec)
-    | .body n :: rest => (.chunk n, rest, pdec)
-    | _ :: rest => (.chunk 1, rest, pdec)
-  | none =>
-    match buf with
-    | [] => (.needMore, buf, none)
-    | .head r :: rest => (.item r, rest, none)
-    | .headA r :: .headB r' :: rest => if r == r' then (.item r, rest, none) else (.errParse, buf, none)
-    | [.headA _] => (.needMore, buf, none)
-    | [.badA] => (.needMore, buf, none)
-    | _ => (.errParse, buf, none)
+  | some (.length rem) => decodeLength rem buf
+  | some .chunked => decodeChunked buf
+  | some .stream => decodeStream buf
+  | none => decodeHead buf
 
 def pdecOf : ReqBody → Option PDec
   | .none => none
@@ -457,8 +471,64 @@ def sendResponse (cfg : Cfg) (s : DState) (r : Option Nat) (res : RespHead) (siz
 
 /-- `handle_request` / pop of an `Item`: start the expect or the service call -/
 def startRequest (s : DState) (r : ReqFacts) : DState × List Out :=
-  if r.expect then ({ s with st := .expect r.rid }, [.expectCall r.rid])
-  else ({ s with st := .service r.rid }, [.call r.rid])
+  if r.expect then ({ s with st := .expect r }, [.begin r.rid, .expectCall r.rid])
+  else ({ s with st := .service r }, [.begin r.rid, .call r.rid])
+
+/-- `Codec::decode` (codec.rs:122): the encode context of a freshly decoded request -/
+def newCtx (cfg : Cfg) (old : EncCtx) (r : ReqFacts) : EncCtx :=
+  { head := r.isHead, stream := old.stream || r.body == .stream, version := r.version,
+    connType := if r.conn == .keepAlive && !cfg.kaEnabled then ConnType.close else r.conn }
+
+/-- decode of a request head: payload decoder, head timer, payload slot (l.902–935) -/
+def acceptItem (s : DState) (r : ReqFacts) : DState :=
+  let s1 := { s with pdec := pdecOf r.body, headTimer := Timer.inactive }
+  match r.body with
+  | .none => { s1 with drainable := false }
+  | b => { s1 with payload := some r.rid, drainable := b == ReqBody.chunked,
+                   chans := s1.chans ++ [Chan.new r.rid] }
+
+/-- queue a dispatcher-made error response and leave the decode loop (l.950–957, l.1016–1023) -/
+def pushError (s : DState) (status : Nat) (e : DErr) : DState :=
+  { s with flags := { s.flags with readDisc := true }, messages := s.messages ++ [Msg.error status],
+           error := some e, inDecode := false }
+
+/-- the body of the decode loop for one decoded item (l.898–1025) -/
+def applyDecoded (cfg : Cfg) (s0 : DState) : Decoded → DState × List Out
+  | .needMore => ({ s0 with inDecode := false }, [])
+  | .item r =>
+    let s2 := acceptItem s0 r
+    if s2.st == .none then startRequest { s2 with ctx := newCtx cfg s0.ctx r } r
+    else
+      -- queued: the in-flight response keeps its own context, the request carries its own
+      ({ s2 with messages := s2.messages ++ [Msg.item r (newCtx cfg s0.ctx r)] }, [])
+  | .chunk n =>
+    match s0.payload with
+    | some _ => s0.onSlot (·.feedData n)
+    | none => (pushError s0 500 .internal, [])
+  | .eof =>
+    match s0.payload with
+    | some _ =>
+      let (s1, o) := s0.onSlot (·.feedEof)
+      ({ s1 with payload := none, drainable := false }, o)
+    | none => (pushError s0 500 .internal, [])
+  | .errParse =>
+    let (s1, o) := s0.takePayloadErr .encodingCorrupted
+    (pushError s1 400 .parse, o)
+
+/-- `poll_response` with `State::None` (l.572–620) -/
+def applyPop (cfg : Cfg) (s : DState) : DState × List Out :=
+  if s.flags.draining then
+    ({ s with messages := [],
+              flags := { s.flags with keepAlive := false, shutdown := s.flags.shutdown || !s.flags.linger } }, [])
+  else
+    match s.messages with
+    | .item r ctx :: rest => startRequest { s with messages := rest, ctx := ctx } r
+    | .error status :: rest =>
+      sendResponse cfg { s with messages := rest } none
+        { status := status, connType := none, chunked := true, headers := [] } (.sized 0) true
+    | [] =>
+      ({ s with flags := { s.flags with keepAlive := s.payload.isNone && s.ctx.connType == .keepAlive } }, [])
+
 
 def ok (s : DState) (o : List Out := []) : Option (DState × List Out) := some (s, o)
 
@@ -551,7 +621,7 @@ def step (cfg : Cfg) (s : DState) : Event → Option (DState × List Out)
     else none
   -- poll_request entry (l.878–889)
   | .pollRequestEnter =>
-    if s.mode == .normal && !(s.flags.draining && s.st == .none) then
+    if s.mode == .normal && s.flags.started && !(s.flags.draining && s.st == .none) then
       -- `can_read` is evaluated (and may register the feeder's waker) even when the queue is full
       let (can, s1) := s.canRead
       ok { s1 with inDecode := can && s.messages.length < Consts.h1MaxPipelined }
@@ -560,72 +630,19 @@ def step (cfg : Cfg) (s : DState) : Event → Option (DState × List Out)
   | .decodeOne =>
     if s.mode == .normal && s.inDecode then
       let (d, buf, pdec) := decodeUnits s.pdec s.readBuf
-      let s0 := { s with readBuf := buf, pdec := pdec }
-      match d with
-      | .needMore => ok { s0 with inDecode := false }
-      | .item r =>
-        -- Codec::decode (codec.rs:122): context of the decoded request
-        let ct := if r.conn == .keepAlive && !cfg.kaEnabled then ConnType.close else r.conn
-        let newCtx : EncCtx := { head := r.isHead, stream := s.ctx.stream || r.body == .stream,
-                                 version := r.version, connType := ct }
-        let s1 := { s0 with pdec := pdecOf r.body,
-                            headTimer := Timer.inactive }
-        let s2 := match r.body with
-          | .none => { s1 with drainable := false }
-          | b => { s1 with payload := some r.rid, drainable := b == ReqBody.chunked,
-                           chans := s1.chans ++ [Chan.new r.rid] }
-        if s2.st == .none then
-          let (s3, o) := startRequest { s2 with ctx := newCtx } r
-          ok s3 o
-        else
-          -- queued: the in-flight response keeps its own context
-          ok { s2 with messages := s2.messages ++ [Msg.item r newCtx] }
-      | .chunk n =>
-        match s0.payload with
-        | some _ =>
-          let (s1, o) := s0.onSlot (·.feedData n)
-          ok s1 o
-        | none =>
-          ok { s0 with flags := { s0.flags with readDisc := true }, messages := s0.messages ++ [Msg.error 500],
-                       error := some .internal, inDecode := false }
-      | .eof =>
-        match s0.payload with
-        | some _ =>
-          let (s1, o) := s0.onSlot (·.feedEof)
-          ok { s1 with payload := none, drainable := false } o
-        | none =>
-          ok { s0 with flags := { s0.flags with readDisc := true }, messages := s0.messages ++ [Msg.error 500],
-                       error := some .internal, inDecode := false }
-      | .errParse =>
-        let (s1, o) := s0.takePayloadErr .encodingCorrupted
-        ok { s1 with messages := s1.messages ++ [Msg.error 400], flags := { s1.flags with readDisc := true },
-                     error := some .parse, inDecode := false } o
+      some (applyDecoded cfg { s with readBuf := buf, pdec := pdec } d)
     else none
   -- l.1347
   | .disconnect =>
     if s.mode == .normal && s.shouldDisconnect then
       let (s1, o1) := s.onSlot (·.setError .incomplete)
       let (s2, o2) := s1.onSlot (·.feedEof)
-      ok { s2 with payload := none, shouldDisconnect := false, flags := { s2.flags with readDisc := true } } (o1 ++ o2)
+      ok { s2 with payload := none, shouldDisconnect := false, inDecode := false,
+                   flags := { s2.flags with readDisc := true } } (o1 ++ o2)
     else none
   -- poll_response, `StateProj::None` arms (l.572–620)
   | .pop =>
-    if s.mode == .normal && s.st == .none then
-      if s.flags.draining then
-        ok { s with messages := [],
-                    flags := { s.flags with keepAlive := false, shutdown := s.flags.shutdown || !s.flags.linger } }
-      else
-        match s.messages with
-        | .item r ctx :: rest =>
-          let (s1, o) := startRequest { s with messages := rest, ctx := ctx } r
-          ok s1 o
-        | .error status :: rest =>
-          let (s1, o) := sendResponse cfg { s with messages := rest } none
-            { status := status, connType := none, chunked := true, headers := [] } (.sized 0) true
-          ok s1 o
-        | [] =>
-          ok { s with flags := { s.flags with keepAlive := s.payload.isNone && s.ctx.connType == .keepAlive } }
-    else none
+    if s.mode == .normal && s.st == .none then some (applyPop cfg s) else none
   -- l.622 / l.845
   | .handlerPoll res =>
     match s.st with
@@ -633,8 +650,8 @@ def step (cfg : Cfg) (s : DState) : Event → Option (DState × List Out)
       if s.mode == .normal then
         match res with
         | .pending => ok s
-        | .ready h size => let (s1, o) := sendResponse cfg s (some r) h size false; ok s1 o
-        | .err h size => let (s1, o) := sendResponse cfg s (some r) h size true; ok s1 o
+        | .ready h size => let (s1, o) := sendResponse cfg s (some r.rid) h size false; ok s1 o
+        | .err h size => let (s1, o) := sendResponse cfg s (some r.rid) h size true; ok s1 o
       else none
     | _ => none
   -- l.765 / l.817
@@ -644,8 +661,8 @@ def step (cfg : Cfg) (s : DState) : Event → Option (DState × List Out)
       if s.mode == .normal then
         match res with
         | .pending => ok s
-        | .ok => ok { s with writeBuf := s.writeBuf ++ continue100, st := .service r } [.continue100, .call r]
-        | .err h size => let (s1, o) := sendResponse cfg s (some r) h size true; ok s1 o
+        | .ok => ok { s with writeBuf := s.writeBuf ++ continue100, st := .service r } [.continue100, .call r.rid]
+        | .err h size => let (s1, o) := sendResponse cfg s (some r.rid) h size true; ok s1 o
       else none
     | _ => none
   -- l.650–763
@@ -718,7 +735,7 @@ def step (cfg : Cfg) (s : DState) : Event → Option (DState × List Out)
     if s.mode == .linger && !s.readBuf.isEmpty then ok { s with readBuf := [], readSome := false } else none
   | .lingerEof =>
     if s.mode == .linger && s.shouldDisconnect then
-      ok { s with readBuf := [], shouldDisconnect := false, mode := .idle,
+      ok { s with readBuf := [], shouldDisconnect := false, mode := .idle, inDecode := false,
                   flags := { s.flags with linger := false, readDisc := true, shutdown := true } } [.wake]
     else none
   | .lingerPending =>
